@@ -376,3 +376,4 @@ Definition o_blind_issuance_amount (T : ub_oracle) := blind_issuance_amount (ora
 Definition o_unblind_with_key (T : ub_oracle) := unblind_with_key (oracle_prims T).
 Definition o_unblind_with_nonce (T : ub_oracle) := unblind_with_nonce (oracle_prims T).
 Definition o_unblind_issuance (T : ub_oracle) := unblind_issuance (oracle_prims T).
+Definition o_last_value_range_proof (T : ub_oracle) := last_value_range_proof (oracle_prims T).
